@@ -801,7 +801,20 @@ fn c12_one<T: Elem + SatisfyTraits<Tr>, M: MemCaps, Tr: ?Sized + TrCaps>(ctx: &m
                             }
                         }
                         let new_len = ids.len();
-                        unsafe { v.set_len(new_len) };
+                        // alternate between the erased and the typed set_len
+                        if (len + extra) % 2 == 0 {
+                            unsafe { v.set_len(new_len) };
+                        } else {
+                            unsafe {
+                                let mut tv = v.downcast_mut::<T>().unwrap();
+                                tv.set_len(new_len);
+                            }
+                        }
+                        if v.len() != new_len {
+                            notes.push(format!("set_len({new_len}) with capacity {cap} left len {}", v.len()));
+                            // the written values were not adopted: drop them here so the registry stays exact
+                            unsafe { v.set_len(new_len) };
+                        }
                         match snap_ids::<T, _, _>(v) {
                             Ok(got) => {
                                 if got != ids {
@@ -876,6 +889,8 @@ pub fn c12(ctx: &mut Ctx) {
             c12_one::<A32d, $m, Cl>(ctx, l, $pl);
             c12_one::<A64d, $m, Cl>(ctx, l, $pl);
             c12_one::<L160d, $m, Cl>(ctx, l, $pl);
+            c12_one::<M40d, $m, Cl>(ctx, l, $pl);
+            c12_one::<H72d, $m, Cl>(ctx, l, $pl);
         };
     }
     #[cfg(feature = "alloc")]
